@@ -210,7 +210,6 @@ def main():
     for o in chk.outcomes:
         for k, v in (o.get("rules") or {}).items():
             fired[k] += v
-    sys.path.insert(0, "/repo")
     from monitor import rules as R
     R.install()
     import funsor.cnf, funsor.tensor, funsor.delta, funsor.gaussian, funsor.joint, funsor.integrate, funsor.constant, funsor.sum_product  # noqa
